@@ -17,7 +17,7 @@ fn v(rule: &str, call: &str, detail: &str, msg: String, case: J) -> Violation {
 fn geometry_list(ctx: &Ctx, rng: &mut Rng) -> Vec<Geom> {
     let mut out = Vec::new();
     // classification boundaries, both widths
-    for (clusters, fat32) in [(4085u32, false), (4086, false), (65524, false), (65525, true), (65526, true)] {
+    for (clusters, fat32) in [(4085u32, false), (4086, false), (65524, false), (65525, true), (65526, true), (65519, false), (65521, false), (65523, false)] {
         for spc in [1u32, 2] {
             let mut g = if fat32 { Geom::base_fat32(clusters, spc) } else { Geom::base_fat16(clusters, spc) };
             g.part_slot = rng.usize_below(4);
@@ -89,6 +89,8 @@ fn valid_case(g: Geom, idx: usize, seed: u64, rep: &mut Report) {
     if f.fat[last] == 0 {
         f.add_file(target, &name11("LASTCL.BIN"), 0x20, &fsx::payload(7002, 0, cb.min(3000)), Alloc::Tail);
     }
+    // a chain that runs through the highest cluster numbers of the volume
+    f.add_file(target, &name11("TAILCHN.BIN"), 0x20, &fsx::payload(7004, 0, (4 * cb + 9).min(500_000)), Alloc::Tail);
     f.add_file(target, &name11("JUMPY.BIN"), 0x20, &fsx::payload(7003, 0, (5 * cb + 11).min(700_000)), Alloc::Scatter);
     let (img, g, placed) = f.finish();
     let case = || J::obj().set("geometry", g.describe()).set("case_index", idx);
@@ -467,6 +469,7 @@ pub fn run(ctx: &Ctx) -> i32 {
             exhaustive: None,
             extra: vec![],
             min_distinct: 50,
+            min_counters: vec![],
         },
     )
 }
